@@ -1128,7 +1128,7 @@ def main(ck):
 
 
 def replay(ck, payload):
-    case = payload["case"]
+    case = payload.get("case", payload)  # a replay file or a bare corpus case
     ok = True
     if case["kind"] == "history":
         st = run_history_impl(case)
